@@ -195,6 +195,13 @@ def snapshot(sim, skip_callback=None):
             _add(sec, "timer %s has clock task" % name)
         if t.mode is not None:
             _add(sec, "timer %s bound to mode" % name)
+    for name in sorted(getattr(m, "shots", {}).keys()):
+        sh = m.shots[name]
+        if sh._handlers:
+            _add(sec, "shot %s holds hit handlers" % name, len(sh._handlers))
+        if sh.running_show is not None:
+            _add(sec, "shot %s has a running show" % name)
+        # (shot.mode keeps pointing at the stopped mode - a stale attribute, not a registration)
     for coll_name in ("counters", "accruals", "sequences"):
         for name in sorted(getattr(m, coll_name, {}).keys()):
             d = getattr(m, coll_name)[name]
@@ -228,6 +235,11 @@ def snapshot(sim, skip_callback=None):
             continue
         _add(sec, short("once %s" % cb_desc(cb), 300))
     return snap
+
+
+def restrict(snap, regex):
+    """The items of a snapshot that mention one of the given owners (mode or device names)."""
+    return {sec: {item: n for item, n in items.items() if regex.search(item)} for sec, items in snap.items()}
 
 
 def diff(base, cur):
